@@ -81,7 +81,9 @@ static void run(bool reopen_rw) {
     build_world(w);
     for (int s = 0; s < VH_STEPS; s++) {
         uint32_t op = nixsym_choice("op", N_OPS);
-        mutate(w, op);
+        // in a history of several steps an operation may be refused because of an earlier one (name taken, entity deleted): that is
+        // a legal history too - the refusal must leave a state that survives the reopen like any other
+        try { mutate(w, op); } catch (const std::exception &) { nixsym_assert(VH_STEPS > 1 && s > 0, "an operation of the menu was refused on the fresh world file"); }
         if (VH_STEPS > 1 && s == 0 && nixsym_choice("midreopen", 2) == 1) {
             drop_handles(w); w.f.close();
             w.f = File::open(WORLD_FILE, FileMode::ReadWrite);
